@@ -54,6 +54,27 @@ func gen(g *hx.Gen) {
 		}
 	}
 	rec(0)
+	// keyboard-interactive challenge rounds and gssapi-with-mic exchanges (follow-up packets)
+	nx := g.Count(2500, 60000)
+	for i := 0; i < nx && g.N == 0; i++ {
+		ln := r.Range(1, 4)
+		reqs := make([]sauth.Req, ln)
+		for j := range reqs {
+			switch r.Intn(8) {
+			case 0:
+				reqs[j] = letters[r.Intn(L)]
+			case 1, 2, 3:
+				reqs[j] = sauth.RandKbd(r, g, "a")
+			default:
+				reqs[j] = sauth.RandGss(r, g, "a")
+			}
+		}
+		sauth.SetOutcomes(r, r.PickInt(0, 0, 2, 3, 3, 4), reqs)
+		c := sauth.RandCfg(r, true)
+		c.Cbs = r.PickStr("1111", "1111", "1111", "0011", "0001", "0010", "1110")
+		emit(g, c, clone(reqs))
+		g.Stat("exchange")
+	}
 	// random longer histories over the extended alphabet
 	n := g.Count(4000, 200000)
 	for i := 0; i < n; i++ {
